@@ -40,6 +40,72 @@ def status(name, ok, props, error=None):
     STATUS[name] = dict(ok=ok, properties=props, error=error)
 
 
+STD_STUB = ('(* translator refused; stub *)\nDefinition gen_stdpc_n_R (n : list R) : R := 0.\n'
+            'Definition gen_stdpc_R {X : Type} (unique_counts : list X -> list R) (a : list X) : R := 0.\n')
+
+
+def _body(fn):
+    b = list(fn.body)
+    if b and isinstance(b[0], ast.Expr) and isinstance(getattr(b[0], 'value', None), ast.Constant) and isinstance(b[0].value.value, str):
+        b = b[1:]
+    return b
+
+
+def _is_call_of(e, fname, argname):
+    return (isinstance(e, ast.Call) and isinstance(e.func, ast.Name) and e.func.id == fname and not e.keywords
+            and len(e.args) == 1 and isinstance(e.args[0], ast.Name) and e.args[0].id == argname)
+
+
+def _is_half(e):
+    if isinstance(e, ast.Constant) and type(e.value) is float and e.value == 0.5:
+        return True
+    return (isinstance(e, ast.BinOp) and isinstance(e.op, ast.Div) and isinstance(e.left, ast.Constant)
+            and isinstance(e.right, ast.Constant) and type(e.left.value) is int and type(e.right.value) is int
+            and e.left.value == 1 and e.right.value == 2)
+
+
+def std_text(tree):
+    """stdpc_n(n) must be  return varpc_n(n) ** 0.5  (or np.sqrt / math.sqrt of it); stdpc(array) must be
+    array = np.asarray(array); _, n = np.unique(array, return_counts=True); return stdpc_n(n).  Anything else is refused."""
+    fn = A.find_function(tree, 'stdpc_n')
+    if len(fn.args.args) != 1 or fn.args.vararg or fn.args.kwarg or fn.args.kwonlyargs or fn.args.defaults or fn.decorator_list:
+        raise A.TranslateError('stdpc_n: unexpected signature')
+    a = fn.args.args[0].arg
+    b = _body(fn)
+    if len(b) != 1 or not isinstance(b[0], ast.Return) or b[0].value is None:
+        raise A.TranslateError('stdpc_n: body is not a single return')
+    v = b[0].value
+    ok = False
+    if isinstance(v, ast.BinOp) and isinstance(v.op, ast.Pow) and _is_call_of(v.left, 'varpc_n', a) and _is_half(v.right):
+        ok = True
+    if (isinstance(v, ast.Call) and isinstance(v.func, ast.Attribute) and v.func.attr == 'sqrt' and isinstance(v.func.value, ast.Name)
+            and v.func.value.id in ('np', 'numpy', 'math') and not v.keywords and len(v.args) == 1 and _is_call_of(v.args[0], 'varpc_n', a)):
+        ok = True
+    if not ok:
+        raise A.TranslateError('stdpc_n: return value is not the square root of varpc_n(%s): %s' % (a, ast.unparse(v)))
+    fn2 = A.find_function(tree, 'stdpc')
+    if len(fn2.args.args) != 1 or fn2.args.vararg or fn2.args.kwarg or fn2.args.kwonlyargs or fn2.args.defaults or fn2.decorator_list:
+        raise A.TranslateError('stdpc: unexpected signature')
+    x = fn2.args.args[0].arg
+    b2 = _body(fn2)
+    want = ['%s = np.asarray(%s)' % (x, x), None, None]
+    if len(b2) != 3 or ast.unparse(b2[0]) != want[0]:
+        raise A.TranslateError('stdpc: unexpected body')
+    s1 = b2[1]
+    if not (isinstance(s1, ast.Assign) and len(s1.targets) == 1 and isinstance(s1.targets[0], ast.Tuple) and len(s1.targets[0].elts) == 2
+            and all(isinstance(t, ast.Name) for t in s1.targets[0].elts)
+            and ast.unparse(s1.value) == 'np.unique(%s, return_counts=True)' % x):
+        raise A.TranslateError('stdpc: counts are not np.unique(%s, return_counts=True)' % x)
+    nname = s1.targets[0].elts[1].id
+    if nname == s1.targets[0].elts[0].id or nname == x:
+        raise A.TranslateError('stdpc: count variable shadowed')
+    if not (isinstance(b2[2], ast.Return) and b2[2].value is not None and _is_call_of(b2[2].value, 'stdpc_n', nname)):
+        raise A.TranslateError('stdpc: does not return stdpc_n of the counts')
+    return ('(* stdpc_n(n) = varpc_n(n) ** 0.5; stdpc(array) = stdpc_n(np.unique(array, return_counts=True)[1]) *)\n'
+            'Definition gen_stdpc_n_R (n : list R) : R := sqrt (gen_varpc_n_R n).\n'
+            'Definition gen_stdpc_R {X : Type} (unique_counts : list X -> list R) (a : list X) : R := gen_stdpc_n_R (unique_counts a).\n')
+
+
 def gen_stats():
     src_path = os.path.join(REPO, 'pyrepseq', 'stats.py')
     src = open(src_path).read()
@@ -83,6 +149,17 @@ def gen_stats():
         except A.TranslateError as e:
             q.append(unavailable('stats.' + name, props, cname + ':Q', str(e), A.expr_stub(cname, 'Q', str(e))))
             r.append(unavailable('stats.' + name, props, cname + ':R', str(e), A.expr_stub(cname, 'R', str(e))))
+    # stdpc_n / stdpc: 'the square root of varpc_n for the same counts' (C06).  Only the shapes below are accepted.
+    cname = 'gen_stdpc'
+    try:
+        if tree is None:
+            raise A.TranslateError('stats.py does not parse')
+        tr = std_text(tree)
+        NEW_SNAP[cname + ':R'] = tr
+        r.append(tr)
+        status('stats.stdpc_n', True, ['C06'])
+    except A.TranslateError as e:
+        r.append(unavailable('stats.stdpc_n', ['C06'], cname + ':R', str(e), STD_STUB))
     write_if_changed(os.path.join(ROOT, 'coq/gen/Gen_stats.v'), '\n'.join(q) + '\n')
     write_if_changed(os.path.join(ROOT, 'coq/gen/Gen_stats_R.v'), '\n'.join(r) + '\n')
 
